@@ -301,6 +301,16 @@ impl Model {
                 debug_assert_eq!(*m, self.memo_srcs.len());
                 self.memo_srcs.push(*src);
                 self.memo_held.push(true);
+                // memoised inside a bind closure: its constructor calls the first memoised function
+                // that closure captured
+                let inner = match ctx {
+                    Ctx::BindFn(b) => match &self.nodes[b].rk {
+                        RK::Bind { memos, .. } => memos.first().copied(),
+                        _ => None,
+                    },
+                    _ => None,
+                };
+                self.memo_calls_memo.push(inner);
             }
             Act::MemoCall { m, key, hid, fresh, prev_alive } => {
                 self.on_memo_call(at, *m, *key, *hid, *fresh, *prev_alive);
